@@ -23,7 +23,7 @@ ASSUMPTIONS = [
 ]
 MANIFEST = {'text': 'proof (dominators, must-pass-through, provenance) of: no-overwrite and confinement of auto-save, Complete only from the size/sequence-checked sites, payload appended only for the expected package '
                     'with paired counters, only Complete transfers reach the save table.'
-                    ' Added: Complete on the data path requires size equality on every path; whenever the received-payload counter advances the package is appended (unless nothing is kept). Added: the index announced in tree items and the keys of the save table are positions in self.transfers (enumerate directly over it).'}
+                    ' Added: Complete on the data path requires size equality on every path; whenever the received-payload counter advances the package is appended (unless nothing is kept). Added: the index announced in tree items and the keys of the save table are positions in self.transfers (enumerate directly over it). Added: the payload counter is reset only together with the data buffer; an expected package of exactly buffer_size bytes is always accepted. Added: every handled package is counted as received on every path to check_finished. Added: the numeric argument decoder selects from_be_bytes / from_le_bytes by the byte order of the argument and looks at a fixed byte only for one-byte values.'}
 
 MOD = 'adlt::plugins::file_transfer::'
 CREATE = re.compile(r'^(std::fs::File::create|std::fs::File::create_new|std::fs::OpenOptions::open|std::fs::write|std::fs::File::options|std::fs::rename|std::fs::copy|std::fs::remove_file)$')
@@ -43,6 +43,12 @@ def run(F, chk):
     check_index_space(F, V7)
     V8 = chk.rule('V8', 'the received-payload counter is reset only together with the data buffer (a restart that keeps old bytes would be reported complete with a stale prefix)')
     check_counter_reset_with_data(F, [b for b in bodies if '::tests::' not in b.path], V8)
+    V9 = chk.rule('V9', 'a package with the expected number that is exactly buffer_size long is always accepted (rejection of an expected package requires len != buffer_size)')
+    check_full_package_accepted(F, V9)
+    V10 = chk.rule('V10', 'every data package handled for an unfinished transfer is counted as received (recvd_packages += 1 on every path to check_finished), whether or not its data is accepted')
+    check_every_package_counted(F, V10)
+    V11 = chk.rule('V11', 'numeric FLST/FLDA arguments are decoded by from_be_bytes / from_le_bytes selected by the argument\'s byte order: a single byte of the raw value is looked at only when the value is one byte long or under a test of is_big_endian')
+    check_numeric_decode(F, V11)
     creates = []
     for b in bodies:
         for blk in b.calls():
@@ -654,3 +660,249 @@ def check_counter_reset_with_data(F, bodies, V8):
                     V8.violation(('counter-reset-keeps-data', b.closure_of or b.path), '%s sets %s = %s at %s but the buffer %s.file_data is not reset on every path with it: the bytes of the aborted attempt stay in front, '
                                  'the counters match again after the re-sent packages and the transfer is reported Complete with a stale prefix' % (b.path, show(tgt), show(e)[:30], b.loc(s.sp), show(owner)), where=b.loc(s.sp))
     V8.floor('constructions / non-incrementing stores of the received-payload counter', n, 1)
+
+
+# ---------------------------------------------------------------------------------------------
+# V9: a full-size expected package is accepted
+
+def check_full_package_accepted(F, V9):
+    """"a transfer whose packages all arrive in order ... is reported complete": every package but the last is exactly buffer_size
+    long, and so is the last one of a file whose size is a multiple of buffer_size.  So whenever the package carries the
+    expected number, the only admissible reason to not accept it (advance next_package) is that its length differs from
+    buffer_size: every path from the true edge of `package_nr == next_package` that reaches the end of the handler without the
+    accepting store has crossed the false edge of `len == buffer_size`."""
+    from paths import Explorer
+    b = F.get(MOD + 'FileTransfer::add_flda')
+    if b is None:
+        V9.violation(('anchor-lost', 'add_flda'), 'FileTransfer::add_flda not found')
+        return
+    V9.fn(b.path)
+    cfg = CFG(b)
+    E = ExprBuilder(cfg, fold_named=True)
+    acc = set()
+    for blk in b.blocks:
+        if blk.cleanup:
+            continue
+        for s in blk.stmts:
+            if s.k == 'assign' and show(E.target(s.place)) == '(*self).next_package':
+                e = E.rvalue(s.rv)
+                if isinstance(e, tuple) and e[0] == 'bin' and e[1] == 'Add' and show(e[2]) == '(*self).next_package':
+                    acc.add(blk.i)
+    V9.floor('accepting stores (next_package += 1) in add_flda', len(acc), 1)
+
+    def cond_of(blk):
+        from facts import Operand as Op
+        c = E.operand(Op(blk.term.d['d']))
+        neg = False
+        while isinstance(c, tuple) and c[0] == 'un' and c[1] == 'Not':
+            c, neg = c[2], not neg
+        return c, neg
+
+    def kind(c):
+        if not (isinstance(c, tuple) and c[0] == 'bin' and c[1] in ('Eq', 'Ne')):
+            return None
+        a, d = show(c[2]), show(c[3])
+        if ('package_nr' in a and 'next_package' in d) or ('next_package' in a and 'package_nr' in d):
+            return ('seq', c[1] == 'Ne')
+        if ('payload_raw' in a and d.endswith('.buffer_size')) or ('payload_raw' in d and a.endswith('.buffer_size')):
+            return ('full', c[1] == 'Ne')
+        return None
+    n_seq = n_full = 0
+    for blk in b.blocks:
+        if not blk.cleanup and blk.term.k == 'switch':
+            k = kind(cond_of(blk)[0])
+            if k and k[0] == 'seq':
+                n_seq += 1
+            if k and k[0] == 'full':
+                n_full += 1
+    V9.floor('sequence tests (package_nr == next_package) in add_flda', n_seq, 1)
+
+    # the size test moved into a predicate method (`self.is_expected_payload_len(len)`): its `false` implies len != buffer_size if
+    # every definition of its result other than `true` lies behind the false edge of `len_param == self.buffer_size`
+    size_preds = {}
+    for blk in b.calls():
+        t = blk.term
+        H = F.get(t.callee.resolved) if t.callee.resolved else F.get(t.callee.path)
+        if H is None or H.kind == 'closure' or H.ret_type() != 'bool' or not (H.impl_self or '').startswith(MOD + 'FileTransfer'):
+            continue
+        lp = [H.name_of(i + 1) or 'arg%d' % (i + 1) for i, a in enumerate(t.args) if 'payload_raw' in show(E.operand(a))]
+        if not lp:
+            continue
+        hcfg = CFG(H)
+        hE = ExprBuilder(hcfg, fold_named=True)
+        ok_h = True
+        for (bi_, si_, d_) in hcfg.defs.get(0, []):
+            if si_ == 'call':
+                ok_h = False
+                continue
+            if hE.rvalue(d_.rv) == ('const', 1):
+                continue
+            under = False
+            for (c_, truth_, D_) in guards.known(hcfg, hE, bi_):
+                if truth_ in (True, False):
+                    c2_, t2_ = guards.normalise(c_, truth_)
+                    if t2_ is True and isinstance(c2_, tuple) and c2_[0] == 'bin' and c2_[1] == 'Ne':
+                        a_, d2_ = show(c2_[2]), show(c2_[3])
+                        if (a_ in lp and d2_.endswith('.buffer_size')) or (d2_ in lp and a_.endswith('.buffer_size')):
+                            under = True
+            if not under:
+                ok_h = False
+        if ok_h:
+            size_preds[H.path] = True
+            V9.fn(H.path)
+            n_full += 1
+
+    def block_effect(blk, facts):
+        if blk.i in acc:
+            facts = frozenset(facts | {('acc',)})
+        return facts
+
+    def edge_effect(blk, tgt, facts):
+        if blk.term.k != 'switch':
+            return facts
+        c, neg = cond_of(blk)
+        if isinstance(c, tuple) and c[0] == 'call' and c[1] in size_preds:
+            for v, t_ in blk.term.d['vals']:
+                if t_ == tgt and bool(v) == neg:      # the predicate is false on this edge
+                    return frozenset(facts | {('notfull',)})
+            if blk.term.d['otherwise'] == tgt and [v for v, _ in blk.term.d['vals']] == [0] and neg:
+                return frozenset(facts | {('notfull',)})
+            return facts
+        k = kind(c)
+        if not k:
+            return facts
+        val = None
+        for v, t_ in blk.term.d['vals']:
+            if t_ == tgt:
+                val = bool(v)
+        if val is None and blk.term.d['otherwise'] == tgt and [v for v, _ in blk.term.d['vals']] == [0]:
+            val = True
+        if val is None:
+            return facts
+        holds = (val != neg) != k[1]       # does the equality hold on this edge
+        if k[0] == 'seq' and holds:
+            return frozenset(facts | {('seq',)})
+        if k[0] == 'full' and not holds:
+            return frozenset(facts | {('notfull',)})
+        return facts
+    ex = Explorer(cfg, block_effect=block_effect, edge_effect=edge_effect, var_roots=set())
+    ex.run()
+    V9.paths += ex.n_states
+    ends = [blk.i for blk in b.calls() if blk.term.callee.path.endswith('FileTransfer::check_finished')] or list(cfg.exits)
+    bad = None
+    nst = 0
+    for x in ends:
+        for st in ex.states.get(x, ()):
+            f = st[1]
+            if ('seq',) in f and ('acc',) not in f:
+                nst += 1
+                if ('notfull',) not in f:
+                    bad = (x, st)
+    V9.sites += nst
+    if bad:
+        V9.violation(('full-package-rejected', b.path), 'add_flda can leave a package that has the expected number un-accepted without having found its length different from buffer_size: '
+                     'a full-size package (every package of a file whose size is a multiple of the package size) can be rejected, the transfer never completes', where=b.loc(None),
+                     witness={'block_path': ex.witness(bad[0], bad[1])[-30:]})
+    else:
+        V9.ok(sample={'rejections_of_an_expected_package': nst, 'each_behind': 'len != buffer_size', 'size_tests': n_full})
+    V9.floor('paths that reject an expected package', nst, 1)
+
+
+# ---------------------------------------------------------------------------------------------
+# V10: every handled package is counted
+
+def check_numeric_decode(F, V11):
+    """package numbers, sizes and the serial arrive as 1/2/4/8 byte integers in the byte order of the message.  raw[0] is the
+    most significant byte in one order and the least significant in the other, so a decision taken on a fixed byte (sign test,
+    range test) holds for one byte order only - e.g. every little-endian package number with bit 7 set in its low byte is
+    rejected as negative, package 128 never arrives and the transfer never completes."""
+    import rawreads
+    n = 0
+    for b in F.order:
+        if b.crate != 'lib' or not re.search(r'plugins::file_transfer::arg_as_(uint|int|u\d+|i\d+|number)$', b.path):
+            continue
+        cfg = CFG(b)
+        E = ExprBuilder(cfg, fold_named=True)
+        V11.fn(b.path)
+        froms = [blk for blk in b.calls() if re.search(r'::from_(be|le)_bytes$', blk.term.callee.path)]
+        V11.floor('from_be/le_bytes decodes in ' + b.path.split('::')[-1], len(froms), 2)
+        for blk in froms:
+            be = blk.term.callee.path.endswith('from_be_bytes')
+            V11.sites += 1
+            verdict = None
+            for (c, truth, D) in guards.known(cfg, E, blk.i):
+                if truth in (True, False) and re.search(r'\.is_big_endian\)?$', show(c)):
+                    verdict = truth
+            if verdict is None:
+                V11.violation(('decode-not-under-byte-order-test', b.path), '%s calls %s at %s outside any test of is_big_endian' % (b.path.split('::')[-1], blk.term.callee.path.split('::')[-1], b.loc(blk.term.sp)), where=b.loc(blk.term.sp))
+            elif verdict != be:
+                V11.violation(('decode-with-wrong-byte-order', b.path), '%s decodes with %s at %s on the is_big_endian == %s edge' % (b.path.split('::')[-1], blk.term.callee.path.split('::')[-1], b.loc(blk.term.sp), str(verdict).lower()), where=b.loc(blk.term.sp))
+            else:
+                V11.ok(sample={'decode': blk.term.callee.path.split('::')[-1], 'at': b.loc(blk.term.sp), 'edge': 'is_big_endian == %s' % str(verdict).lower()})
+        for blk in rawreads.byte_reads(b, E, lambda sx: 'payload_raw' in sx):
+            n += 1
+            V11.sites += 1
+            ok = None
+            for (c, truth, D) in guards.known(cfg, E, blk.i):
+                sc = show(c)
+                if 'is_big_endian' in sc:
+                    ok = 'under a test of is_big_endian'
+                if re.search(r'(len\(|PtrMetadata\()', sc) and 'payload_raw' in sc:
+                    is_cmp = isinstance(c, tuple) and c[0] == 'bin'
+                    if (not is_cmp and truth == ('eq', 1)) or (truth is True and is_cmp and c[1] == 'Eq' and ('const', 1) in (c[2], c[3])):
+                        ok = 'value is one byte long'
+            if ok:
+                V11.ok(sample={'byte_read_at': b.loc(blk.term.sp), 'why_byte_order_free': ok})
+            else:
+                V11.violation(('byte-order-blind-read', b.path), '%s looks at a fixed byte of the raw value at %s without knowing the value is one byte long and without a test of is_big_endian: '
+                              'the decision holds for one byte order only (package numbers / sizes of the other order are mis-decoded or rejected)' % (b.path.split('::')[-1], b.loc(blk.term.sp)), where=b.loc(blk.term.sp))
+    V11.floor('single-byte reads in the numeric argument decoder', n, 1)
+
+
+def check_every_package_counted(F, V10):
+    """check_finished decides Incomplete from `recvd_packages` against next_package / nr_packages: a package that arrived but was not
+    accepted (wrong size, gap, duplicate) must still be counted, otherwise a transfer with a damaged package looks as if
+    nothing had gone wrong and is later declared Complete with less data.  On every path of add_flda that reaches
+    check_finished the counter has been incremented exactly once."""
+    from paths import Explorer
+    import pairing
+    b = F.get(MOD + 'FileTransfer::add_flda')
+    if b is None:
+        V10.violation(('anchor-lost', 'add_flda'), 'FileTransfer::add_flda not found')
+        return
+    V10.fn(b.path)
+    cfg = CFG(b)
+    E = ExprBuilder(cfg, fold_named=True)
+    inc = set()
+    for blk in b.blocks:
+        if blk.cleanup:
+            continue
+        for s in blk.stmts:
+            if s.k == 'assign' and show(E.target(s.place)) == '(*self).recvd_packages':
+                e = E.rvalue(s.rv)
+                if isinstance(e, tuple) and e[0] == 'bin' and e[1] == 'Add' and show(e[2]) == '(*self).recvd_packages' and e[3] == ('const', 1):
+                    inc.add(blk.i)
+    V10.floor('increments of recvd_packages in add_flda', len(inc), 1)
+
+    def block_effect(blk, facts):
+        if blk.i in inc:
+            facts = pairing.bump(facts, 'rp')
+        return facts
+    ex = Explorer(cfg, block_effect=block_effect, var_roots=set())
+    ex.run()
+    V10.paths += ex.n_states
+    ends = [blk.i for blk in b.calls() if blk.term.callee.path.endswith('FileTransfer::check_finished')]
+    V10.floor('calls of check_finished in add_flda', len(ends), 1)
+    bad = None
+    nst = 0
+    for x in ends:
+        for st in ex.states.get(x, ()):
+            nst += 1
+            if pairing.count(st[1], 'rp') != 1:
+                bad = (x, st, pairing.count(st[1], 'rp'))
+    V10.sites += nst
+    if bad:
+        V10.violation(('package-not-counted', b.path), 'add_flda can reach check_finished with recvd_packages incremented %d time(s) for the package just handled (expected exactly once): a package that was not accepted leaves no trace, '
+                      'the transfer is later judged as if it had never arrived' % bad[2], where=b.loc(None), witness={'block_path': ex.witness(bad[0], bad[1])[-30:]})
+    else:
+        V10.ok(sample={'paths_to_check_finished': nst, 'each_counts_the_package_once': True})
